@@ -22,7 +22,7 @@ def config(tier):
     return {
         "hashseeds": [0, 1] if q else [0, 1, 2, 3, 4, 5, 6, 7],
         "families": ["G1", "G2"],
-        "mc": [],
+        "mc": [{"module": "MCVerilogIO", "cfg": "MCVerilogIO", "workers": 4, "timeout": 900}],
         "shards": 8 if q else 16,
         "negctl": 12,
     }
